@@ -310,6 +310,10 @@ func verifH_C17_parameter() {
 	} else {
 		p.Type = &openapi3.Types{[]string{"string", "integer", "number", "boolean"}[verifChoose("type", 4)]}
 		p.Format = verifStr("format", 1)
+		if verifChoose("wordFormat", 3) > 0 {
+			// real format words: string / binary is a file only in a form, elsewhere an ordinary string
+			p.Format = []string{"binary", "byte", "int32"}[verifChoose("formatWord", 3)]
+		}
 		p.Pattern = verifStr("pattern", 1)
 		p.Minimum, p.Maximum, p.MultipleOf = verifF64p("min"), verifF64p("max"), verifF64p("mul")
 		p.ExclusiveMin, p.ExclusiveMax = verifNondetBool("xmin"), verifNondetBool("xmax")
